@@ -265,8 +265,11 @@ def judge(cmd, vec, labels, res):
     if diff:
         viols.append(V(P + ":main:served:differs-from-api", "argv %r: JSON differs from the library API result in %r" % (argv, sorted({d.split("/")[1] for d in diff if "/" in d} or diff)[:5])))
     if vec["paranoia"]:
-        removed = set(_strings(full)) - set(_strings(exp))
-        leaked = [x for x in _strings(data) if x in removed and len(x) >= 8]
+        from .c15 import private_encoding
+        removed = {x for x in list(_strings(full.get("MASTER", {}).get("mnemonic"))) + list(_strings(full.get("MASTER", {}).get("password"))) +
+                   list(_strings(full.get("BIP85", {}))) if len(x) >= 8}
+        removed |= {x for x in _strings(full) if private_encoding(x)}
+        leaked = [x for x in _strings(data) if x in removed or private_encoding(x)]
         if leaked:
             viols.append(V(P + ":main:served:paranoia-carries-filtered-string", "argv %r: the --paranoia output carries %r, which the filter removes from the API result" % (argv, leaked[0][:40])))
     # how the JSON is laid out (indentation, key order) is not part of the property: only the data is compared
